@@ -71,6 +71,12 @@ def layers(tier):
         for lo in range(0, 1 << K, 32):
             jobs.append({'filter': name, 'meas': 'OVERLAP', 'ts': list(range(1, K + 1)), 'K': K,
                          'lo': lo, 'hi': lo + 32, 'pres': pres})
+    for name in ('Size', 'Prefix', 'Position'):     # equal token sets spelled differently (order, blanks, repeats)
+        for meas in PRUNED_MEASURES:
+            jobs.append({'filter': name, 'meas': meas, 'ts': [1.0, 1, 0.5] + th_att(meas, 5)[::3], 'K': 5, 'lo': 0, 'hi': 32,
+                         'pres': pres, 'respell': True})
+        jobs.append({'filter': name, 'meas': 'OVERLAP', 'ts': [1, 2.0, 5], 'K': 5, 'lo': 0, 'hi': 32, 'pres': pres,
+                     'respell': True})
     Ls.append(Layer('pairs', 'checks.filters:w_fpair_sets', jobs,
                     'filter_pair of Size/Prefix/PositionFilter on all ordered pairs of non-empty subsets of '
                     '%d tokens x {JACCARD,COSINE,DICE} x TH_att(%d) u k/20, OVERLAP x 1..%d; non-trivial = '
